@@ -68,7 +68,18 @@ def make(cls, n, scripts, tol, before_fault=None, after_fault=None):
     for i in range(n):
         m.A[i] = 0.25 * i
         m.B[i] = -0.5 * i
+    # variables with longer names (one of them spelt from the names of two others): a single name given as a string is one name
+    for name, f in EXTRA.items():
+        m.add_variable(name, [f(i) for i in range(n)])
     return m
+
+
+EXTRA = {'AB': lambda t: 0.125 * t + 7.0, 'Xtra': lambda t: -3.0 - t}
+
+
+def gv(d, x, t):
+    """Value of traced variable x at period t: from the recorded dict, or the constant extra series."""
+    return d[x] if x in d else EXTRA[x](t)
 
 
 def snap(m):
@@ -80,7 +91,7 @@ def traced_names(cls, spec):
         return [spec]
     if isinstance(spec, (list, tuple)):
         return list(spec)
-    return list(cls.TRACE_VARIABLES) if cls.TRACE_VARIABLES is not None else ['A', 'B', 'X']
+    return list(cls.TRACE_VARIABLES) if cls.TRACE_VARIABLES is not None else ['A', 'B', 'X'] + list(EXTRA)
 
 
 def trace_image(m):
@@ -154,7 +165,7 @@ def full_check(ctx, cls, n, scripts, opts, spec, entry, arg, tol, faults, case, 
             tt = [x for x in blog if (x[1] if x[1] >= 0 else x[1] + n) == t]
             passes = [(it, v) for (pt, it, v) in bpass if (pt if pt >= 0 else pt + n) == t]
             labels.append('start')
-            cols.append([pre[t][x] for x in names])
+            cols.append([gv(pre[t], x, t) for x in names])
             if not any(x[0] == 'before' for x in tt):
                 # rejected before the pre-hook (ValueError / IndexError / pre-existing non-finite): stop here
                 break
@@ -170,21 +181,21 @@ def full_check(ctx, cls, n, scripts, opts, spec, entry, arg, tol, faults, case, 
                     for x in ('A', 'B'):
                         bv[x] = final[src][x]
             labels.append('before')
-            cols.append([bv[x] for x in names])
+            cols.append([gv(bv, x, t) for x in names])
             before_ok = not (faults[0] == 'exc' or (faults[0] == 'warn' and strict))
             if not before_ok:
                 break
             labels.append(0)
-            cols.append([bv[x] for x in names])
+            cols.append([gv(bv, x, t) for x in names])
             for it, v in passes:
                 labels.append(it)
-                cols.append([v[x] for x in names])
+                cols.append([gv(v, x, t) for x in names])
             if any(x[0] == 'after' for x in tt):
                 after_ok = not (faults[1] == 'exc' or (faults[1] == 'warn' and strict))
                 if after_ok:
                     labels.append('end')
                     ended_in_last_rep.add(t)
-                    cols.append([final[t][x] for x in names])
+                    cols.append([gv(final[t], x, t) for x in names])
                     if str(B.status[t]) == '.' and cols[-1] != cols[-2]:
                         ctx.violation('harness-self-check', 'end snapshot differs from last pass in the harness recording', case)
                 else:
@@ -236,7 +247,7 @@ def run_shard(ctx):
     for i in range(count):
         n = rng.choice([3, 4, 5])
         cls = rng.choice([T, T, T, T2, T2, T0])
-        spec = rng.choice([True, True, ['A'], ['B', 'A'], ['X', 'A', 'B'], 'A', 'B', False, None])
+        spec = rng.choice([True, True, ['A'], ['B', 'A'], ['X', 'A', 'B'], 'A', 'B', False, None, 'AB', 'Xtra', ['AB', 'A'], ('B', 'Xtra')])
         entry = rng.choice(['solve', 'solve', 'solve_t', 'solve_t', 'solve_period'])
         arg = None if entry == 'solve' else (rng.randrange(-n, n) if entry == 'solve_t' else rng.randrange(n))
         fault_at = rng.choice([None, None] + list(range(n)))
